@@ -9,7 +9,7 @@ import clingo
 import gen, lang
 
 PROP_FILE = 'Props/C10.v'
-GROUPS = ['app', 'parts']
+GROUPS = ['app', 'parts', 'show']
 LEAF_LEMMAS = ['printable_gen_spec', 'visible_gen_spec', 'nstates_gen_spec']
 ASSUMPTIONS = ['clingo calls print_model once per answer set after the model callback has stored the horizon (runtime behaviour of clingo, observed only through the subprocess)',
                'clingo\'s symbol order (sorted) is treated as an arbitrary permutation in the theorems']
